@@ -28,6 +28,8 @@ import (
 	"time"
 
 	"github.com/33cn/chain33/common"
+	"github.com/33cn/chain33/common/address"
+	"github.com/33cn/chain33/common/crypto"
 	"github.com/33cn/chain33/types"
 	"pgregory.net/rapid"
 	"verifharness/lib"
@@ -249,6 +251,38 @@ type world struct {
 }
 
 func (w *world) believed() string { w.mu.Lock(); defer w.mu.Unlock(); return w.cur }
+
+// newWorldFresh: the wallet's first life.  An empty wallet database; GenSeed and SaveSeed arrive through the ordinary
+// handlers (the password is chosen there) and nothing else has happened: no unlock, no accounts.  The two addresses the
+// request table refers to belong to keys the wallet does not hold.
+func newWorldFresh() *world {
+	w := &world{n: newNode("secp256k1"), cur: pw0}
+	r, err := w.n.w.GetAPI().ExecWalletFunc("wallet", "GenSeed", &types.GenSeedLang{Lang: 0})
+	if err != nil {
+		lib.Inconclusive("harness: GenSeed: %v", err)
+	}
+	seed := r.(*types.ReplySeed).Seed
+	r, err = w.n.w.GetAPI().ExecWalletFunc("wallet", "SaveSeed", &types.SaveSeedByPw{Seed: seed, Passwd: pw0})
+	if err != nil || !r.(*types.Reply).IsOk {
+		lib.Inconclusive("harness: SaveSeed: %v %v", err, r)
+	}
+	w.addSecret("seed", []byte(seed))
+	cr, err := crypto.Load("secp256k1", -1)
+	if err != nil {
+		lib.Inconclusive("harness: crypto.Load: %v", err)
+	}
+	for i := 1; i <= 2; i++ {
+		k := make([]byte, 32)
+		k[31], k[0] = byte(i), 0x11
+		priv, err := cr.PrivKeyFromBytes(k)
+		if err != nil {
+			lib.Inconclusive("harness: key: %v", err)
+		}
+		w.addrs = append(w.addrs, address.PubKeyToAddr(address.DefaultID, priv.PubKey().Bytes()))
+	}
+	w.dumpFile = filepath.Join(w.n.dir, "setup.keys") // does not exist in this start state
+	return w
+}
 
 // newWorld: wallet with a seed, two imported keys, a dumped key file and (airDrop) the air-drop account of
 // NewAccountByIndex, left locked and "warm" (password held in memory).
